@@ -1434,7 +1434,9 @@ class Interp:
             except (TypeError, ValueError, IndexError, AttributeError) as e:
                 en = type(e).__name__
                 raise Raised(en, (str(e),), node, BUILTIN_EXC[en]) from None
-            if attr in ("keys", "values", "items"):
+            if attr in ("keys", "items"):
+                return ViewList(r)
+            if attr == "values":
                 return list(r)
             return r
         if base is None:
@@ -1744,6 +1746,32 @@ class Interp:
 
     def s_Nonlocal(self, s, env, m):
         self.unsupported(s, "nonlocal")
+
+
+class ViewList(list):
+    """dict.keys() / dict.items(): a list (insertion order) that also supports the set algebra of dict views."""
+
+    def _set(self, other):
+        return set(self), set(other)
+
+    def __sub__(self, other):
+        a, b = self._set(other)
+        return a - b
+
+    def __and__(self, other):
+        a, b = self._set(other)
+        return a & b
+
+    def __or__(self, other):
+        a, b = self._set(other)
+        return a | b
+
+    def __xor__(self, other):
+        a, b = self._set(other)
+        return a ^ b
+
+    def __rsub__(self, other):
+        return set(other) - set(self)
 
 
 class DDict(dict):
